@@ -11,7 +11,7 @@ EXPLANATION = ""
 
 
 def build(tier):
-    us = irfold.build(tier) + irfold.build_ceval(tier) + u256.build(tier) + u256.build_literal(tier) + c12.build(tier) + c13.build(tier) + c14.build(tier) + c07idx.build(tier) + c07red.build(tier) + irtype.build(tier) + c13imm.build(tier)
+    us = irfold.build(tier) + irfold.build_ceval(tier) + u256.build(tier) + u256.build_literal(tier) + c12.build(tier) + c13.build(tier) + c14.build(tier) + c07idx.build(tier) + c07idx.build_inv(tier) + c07red.build(tier) + irtype.build(tier) + c13imm.build(tier)
     if tier == "thorough":
         us += c07.build(tier)
     for u in us:
